@@ -492,56 +492,63 @@ theorem claim_forLoop (id body idx start stop step meas cons) (ih : Claim body) 
 
 /-! ### atoms -/
 
+/-- the pulse a constant template denotes on a kept channel: one constant piece (nothing for `d ≤ 0`) -/
+theorem const_pulseVal (id dur amps meas) (hnd : hasDup (amps.map (·.1)) = false) {σ mm cm P} {c o : Chan} {e : Expr}
+    {d : Rat} (hden : denote (.const id dur amps meas) σ mm cm = .ok P)
+    (hinj : InjOn cm (dedup (amps.map (·.1)))) (he : amps.lookup c = some e) (hcm : cm.lookup c = some (some o))
+    (hd : σ.eval dur = .ok d) :
+    ∀ v, σ.eval e = .ok v → (d > 0 → pulseVal P o = [{ len := d, v0 := v, v1 := v }]) ∧
+      (¬ d > 0 → pulseVal P o = []) := by
+  have hmem := mem_of_lookup amps c e he
+  have hc : c ∈ amps.map (·.1) := List.mem_map.mpr ⟨(c, e), hmem, rfl⟩
+  rw [denote] at hden
+  simp only [hd, ok_bind] at hden
+  intro v hv
+  split at hden
+  · rename_i hpos
+    refine ⟨fun _ => ?_, fun h => absurd hpos h⟩
+    simp only [bind_ok_iff] at hden
+    obtain ⟨cvs, hcvs, hden⟩ := hden
+    obtain ⟨h1, h2⟩ := filterMapM_kept cm σ.eval amps cvs hcvs
+    obtain ⟨v2, hv2, hm2⟩ := h2 (c, e) hmem o hcm
+    rw [hv] at hv2; cases hv2
+    have hlk : (dictOfList cvs).lookup o = some v := by
+      apply dictOfList_lookup cvs o v _ hm2
+      intro y hy hyo
+      obtain ⟨x, hx, hxc, hxe⟩ := h1 y hy
+      rw [hyo] at hxc
+      have hxc' : x.1 = c := hinj x.1 c o ((mem_dedup _ _).mpr (List.mem_map.mpr ⟨x, hx, rfl⟩))
+        ((mem_dedup _ _).mpr hc) hxc hcm
+      have hx' : (c, x.2) ∈ amps := by rw [← hxc']; exact hx
+      have := unique_of_not_hasDup amps hnd hx' hmem
+      rw [this, hv] at hxe
+      cases hxe; rfl
+    split at hden
+    · rename_i hemp
+      have : dictOfList cvs = [] := by simpa using hemp
+      rw [this] at hlk; simp [List.lookup] at hlk
+    · split at hden
+      · cases hden
+      · simp only [bind_ok_iff, pure_ok_iff] at hden
+        obtain ⟨ms, _, rfl⟩ := hden
+        simp only [pulseVal]
+        rw [lookup_map_snd (dictOfList cvs) (fun v => [({ len := d, v0 := v, v1 := v } : Seg)]) o, hlk]
+        rfl
+  · rename_i hneg
+    refine ⟨fun h => absurd h hneg, fun _ => ?_⟩
+    simp only [pure_ok_iff] at hden; subst hden
+    exact pulseVal_empty o
+
 theorem claim_const (id dur amps meas) (hnd : hasDup (amps.map (·.1)) = false) :
     Claim (.const id dur amps meas) := by
   intro σ mm cm P c o hden hreg hinj hc hcm
   simp only [PT.definedChannels] at hinj hc
   rw [mem_dedup] at hc
   obtain ⟨e, he⟩ := lookup_isSome_of_mem_keys amps c hc
-  have hmem := mem_of_lookup amps c e he
   rw [regular, evalsTo_iff] at hreg
   obtain ⟨d, hd, hd0⟩ := hreg
   have hd0 : (0 : Rat) ≤ d := by simpa using hd0
-  rw [denote] at hden
-  simp only [hd, ok_bind] at hden
-  -- the denoted pulse on channel `o`: one constant piece
-  have key : ∀ v, σ.eval e = .ok v → (d > 0 → pulseVal P o = [{ len := d, v0 := v, v1 := v }]) ∧
-      (¬ d > 0 → pulseVal P o = []) := by
-    intro v hv
-    split at hden
-    · rename_i hpos
-      refine ⟨fun _ => ?_, fun h => absurd hpos h⟩
-      simp only [bind_ok_iff] at hden
-      obtain ⟨cvs, hcvs, hden⟩ := hden
-      obtain ⟨h1, h2⟩ := filterMapM_kept cm σ.eval amps cvs hcvs
-      obtain ⟨v2, hv2, hm2⟩ := h2 (c, e) hmem o hcm
-      rw [hv] at hv2; cases hv2
-      have hlk : (dictOfList cvs).lookup o = some v := by
-        apply dictOfList_lookup cvs o v _ hm2
-        intro y hy hyo
-        obtain ⟨x, hx, hxc, hxe⟩ := h1 y hy
-        rw [hyo] at hxc
-        have hxc' : x.1 = c := hinj x.1 c o ((mem_dedup _ _).mpr (List.mem_map.mpr ⟨x, hx, rfl⟩))
-          ((mem_dedup _ _).mpr hc) hxc hcm
-        have hx' : (c, x.2) ∈ amps := by rw [← hxc']; exact hx
-        have := unique_of_not_hasDup amps hnd hx' hmem
-        rw [this, hv] at hxe
-        cases hxe; rfl
-      split at hden
-      · rename_i hemp
-        have : dictOfList cvs = [] := by simpa using hemp
-        rw [this] at hlk; simp [List.lookup] at hlk
-      · split at hden
-        · cases hden
-        · simp only [bind_ok_iff, pure_ok_iff] at hden
-          obtain ⟨ms, _, rfl⟩ := hden
-          simp only [pulseVal]
-          rw [lookup_map_snd (dictOfList cvs) (fun v => [({ len := d, v0 := v, v1 := v } : Seg)]) o, hlk]
-          rfl
-    · rename_i hneg
-      refine ⟨fun h => absurd h hneg, fun _ => ?_⟩
-      simp only [pure_ok_iff] at hden; subst hden
-      exact pulseVal_empty o
+  have key := const_pulseVal id dur amps meas hnd hden hinj he hcm hd
   constructor
   · intro r hr
     rw [integralOf] at hr
